@@ -52,7 +52,12 @@ def main():
                         except Exception:        # noqa: BLE001
                             pass
                         break
-                runs[p] = {"exit": rc, "lines": lines[:6], "first_signature": sig, "wall_s": round(time.time() - t0, 1)}
+                nv = None
+                try:
+                    nv = json.load(open(os.path.join(VERIF, "evidence", p + ".json"))).get("violations")
+                except Exception:        # noqa: BLE001
+                    pass
+                runs[p] = {"exit": rc, "lines": lines[:6], "first_signature": sig, "distinct_violation_signatures": nv, "wall_s": round(time.time() - t0, 1)}
         finally:
             sh("git -C /repo checkout -q -- .")
         meta["earlier_runs"] = meta.get("earlier_runs", []) + [{"checks_run": meta.get("checks_run"), "caught_by": meta.get("caught_by")}]
